@@ -96,6 +96,16 @@ theorem sideB_necessary_F6c :
     ksSpec (E := Nat) true none [1, 4, 5, 7, 9] (some 10) 10 0 1
       (zsModel (E := Nat) 0 none [1, 4, 5, 7, 9] (some 10) 10) = [1, 1, 1, 1, 1, 1] := by decide
 
+/-- **The data fact `limit_lower < observation` (after rounding) is necessary — finding F6d.** An
+observation inside the limits that `np.round` moves onto the lower limit (float32 data are rounded to 3
+decimals) is merged with the limit point and then overwritten by `ks[0] = n_lower`: it vanishes instead
+of being counted with the censored ones, as the code comment intends. (A) and (B) hold here. -/
+theorem rounding_onto_lower_limit_F6d :
+    sideA (E := Nat) 0 (some 2) [2, 3] none 9 = true ∧ sideB (E := Nat) none 9 = true ∧
+    ksModel? (E := Nat) 0 (some 2) [2, 3] none 9 1 0 = some [1, 1, 1] ∧
+    ksSpec (E := Nat) true (some 2) [2, 3] none 9 1 0 (zsModel (E := Nat) 0 (some 2) [2, 3] none 9) = [2, 1, 1] := by
+  decide
+
 /-- **(B) is necessary — finding F2.** With fewer than two buckets `ks[-2]` does not exist:
 `fit([1,1,1,1,1,2], limits=(-inf, 1))` raises `IndexError`. -/
 theorem sideB_necessary_F2 :
